@@ -584,7 +584,21 @@ var (
 // knownFindingBases: obligation base names recorded as known findings of the property being checked.
 var knownFindingBases = map[string]bool{}
 
+// Solve discharges one obligation; when no back end produced any verdict at all (the processes could not be started or
+// died: an exhausted machine, not an answer) it waits and tries again, a few times.
 func Solve(o *Obligation) *Result {
+	var r *Result
+	for attempt := 0; attempt < 4; attempt++ {
+		r = solveOnce(o)
+		if r.Status != "error" || strings.Contains(r.Output, "(error") {
+			return r // a verdict, or a complaint of the solver about the script: not an exhausted machine
+		}
+		time.Sleep(time.Duration(3*(attempt+1)) * time.Second)
+	}
+	return r
+}
+
+func solveOnce(o *Obligation) *Result {
 	if o.Cover && len(o.Alts) > 0 {
 		first := *o
 		first.Alts = nil
@@ -624,7 +638,12 @@ func Solve(o *Obligation) *Result {
 		// quantified assumptions (memory well-formedness, assumed invariants) make "sat" undecidable for the
 		// solvers; they are consistent by construction, so the guard falls back to the quantifier-free part
 		nq := o.script("cover-noq", false)
-		if st2, out2, secs2 := runSolver(solvers[0], nq, quick, optSeed); st2 == "sat" {
+		st2, out2, secs2 := runSolver(solvers[0], nq, quick, optSeed)
+		if st2 == "timeout" || st2 == "error" {
+			// a loaded machine, not a verdict: once more with the generous limit
+			st2, out2, secs2 = runSolver(solvers[0], nq, optTimeoutMs*4, optSeed)
+		}
+		if st2 == "sat" {
 			res.Status, res.Solver, res.Time, res.Output = "sat", solvers[0].name+"(quantifier-free part)", secs2, out2
 			res.finish()
 			return res
